@@ -34,7 +34,12 @@ ASSUMPTIONS = [
     "tolerance 1e-6 on density-matrix entries (complex128 simulators)",
 ]
 
-NONUNITAL = {"AmplitudeDamp", "GenAmplitudeDamp", "Reset"}
+NONUNITAL = {"AmplitudeDamp", "GenAmplitudeDamp", "Reset", "Stored"}
+
+
+def r_c64(r):
+    """stored complex64 operators carry ~1e-7 rounding of their own (the reference uses the same rounded values)"""
+    return any(o["k"] == "ch" and o["g"][0] == "Stored" and o["g"][1].get("c64") for o in r["ops"])
 
 
 def _psd_valid(what, rho, tol=1e-6):
@@ -61,7 +66,10 @@ def _mixed_state(vals, spectrum, D):
 def _entangling_features(r):
     fams = [o["g"][0] for o in r["ops"] if o["k"] == "ch"]
     multi = any(o["k"] in ("g", "cg") and len(o["w"]) >= 2 for o in r["ops"])
+    chans = [MC.GC_dumps([o["g"], [r["dims"][i] for i in o["w"]]]) for o in r["ops"] if o["k"] == "ch"]
     return {"n_channels": min(len(fams), 3), "nonunital": any(f in NONUNITAL for f in fams), "two_qubit_gate": multi,
+            "stored_arrays": "Stored" in fams, "same_channel_object_twice": len(set(chans)) < len(chans),
+            "qudit_channel": any(r["dims"][i] != 2 for o in r["ops"] if o["k"] == "ch" for i in o["w"]),
             "nontrivial": bool(fams) and multi and (any(f in NONUNITAL for f in fams) or len(fams) >= 2)}
 
 
@@ -70,7 +78,7 @@ def _entangling_features(r):
 
 @st.composite
 def _dm_case(draw, qudits=False):
-    r = draw(MC.meas_circuit_recipes(max_w=3, max_ops=9, qudits=qudits, channels=True, max_branches=16, pauli_meas=False, ch_weight=4))
+    r = draw(MC.meas_circuit_recipes(max_w=3, max_ops=9, qudits=qudits, channels=True, max_branches=16, pauli_meas=False, ch_weight=4, stored=True))
     n = len(r["dims"])
     r["order"] = list(draw(st.permutations(list(range(n)))))
     r["split"] = draw(st.booleans())
@@ -113,34 +121,36 @@ def oracle_dm(r):
         sim = cirq.DensityMatrixSimulator(seed=prng, dtype=np.complex128, split_untangled_states=r["split"])
         return sim.simulate(circuit, qubit_order=order, **kw)
 
-    try:
-        branches = enumerate_branches(run, max_branches=300)
-    except OverflowError:
-        raise Reject("too many branches")
-    if abs(sum(p for p, *_ in branches) - 1) > 1e-6:
-        raise Violation(f"branch probabilities of the density-matrix simulator sum to {sum(p for p, *_ in branches):.6g}")
-    by_out = {}
-    for p, script, res, prng in branches:
-        _psd_valid("DensityMatrixSimulator.simulate", res.final_density_matrix)
-        kk = ";".join(f"{k}=" + "".join(str(int(d)) for d in res.measurements[k]) for k in sorted(res.measurements))
-        by_out.setdefault(kk, [0.0, np.zeros((D, D), dtype=complex)])
-        by_out[kk][0] += p
-        by_out[kk][1] += p * np.asarray(res.final_density_matrix)
     want = {}
     for b in ref:
         kk = ";".join(f"{k}=" + "".join(str(d) for d in b.records[k][-1]) for k in sorted(b.records))
         want.setdefault(kk, [0.0, np.zeros((D, D), dtype=complex)])
         want[kk][0] += b.prob
         want[kk][1] += b.prob * b.rho
-    for kk in set(by_out) | set(want):
-        g = by_out.get(kk, [0.0, np.zeros((D, D))])
-        w = want.get(kk, [0.0, np.zeros((D, D))])
-        if abs(g[0] - w[0]) > 1e-6:
-            raise Violation(f"DensityMatrixSimulator: P[{kk}] = {g[0]:.6g}, channel semantics give {w[0]:.6g}")
-        d = L.max_abs_diff(g[1], w[1])
-        if d > 1e-6:
-            raise Violation(f"DensityMatrixSimulator: final density matrix for outcome [{kk}] differs from sum K rho K^dagger by {d:.3g}")
     lab = _entangling_features(r)
+    # a circuit whose channels hold stored arrays is simulated a second time: the same circuit value must mean the same map
+    for again in (["", " (second simulation of the same circuit object)"] if lab["stored_arrays"] else [""]):
+        try:
+            branches = enumerate_branches(run, max_branches=300)
+        except OverflowError:
+            raise Reject("too many branches")
+        if abs(sum(p for p, *_ in branches) - 1) > 1e-6:
+            raise Violation(f"branch probabilities of the density-matrix simulator sum to {sum(p for p, *_ in branches):.6g}{again}")
+        by_out = {}
+        for p, script, res, prng in branches:
+            _psd_valid("DensityMatrixSimulator.simulate" + again, res.final_density_matrix)
+            kk = ";".join(f"{k}=" + "".join(str(int(d)) for d in res.measurements[k]) for k in sorted(res.measurements))
+            by_out.setdefault(kk, [0.0, np.zeros((D, D), dtype=complex)])
+            by_out[kk][0] += p
+            by_out[kk][1] += p * np.asarray(res.final_density_matrix)
+        for kk in set(by_out) | set(want):
+            g = by_out.get(kk, [0.0, np.zeros((D, D))])
+            w = want.get(kk, [0.0, np.zeros((D, D))])
+            if abs(g[0] - w[0]) > 1e-6:
+                raise Violation(f"DensityMatrixSimulator{again}: P[{kk}] = {g[0]:.6g}, channel semantics give {w[0]:.6g}")
+            d = L.max_abs_diff(g[1], w[1])
+            if d > (2e-6 if r_c64(r) else 1e-6):
+                raise Violation(f"DensityMatrixSimulator{again}: final density matrix for outcome [{kk}] differs from sum K rho K^dagger by {d:.3g}")
     lab["init"] = init["kind"]
     lab["qudit"] = any(d != 2 for d in shape)
     lab["has_measure"] = any(o["k"] == "m" for o in r["ops"])
@@ -231,7 +241,7 @@ KNOWN_FEATURES = {
 
 @st.composite
 def _traj_case(draw):
-    r = draw(MC.meas_circuit_recipes(max_w=3, max_ops=8, channels=True, max_branches=8, confusion=False, pauli_meas=False, ch_weight=4))
+    r = draw(MC.meas_circuit_recipes(max_w=3, max_ops=8, channels=True, max_branches=8, confusion=False, pauli_meas=False, ch_weight=4, stored=True))
     n = len(r["dims"])
     r["order"] = list(draw(st.permutations(list(range(n)))))
     r["split"] = draw(st.booleans())
